@@ -230,7 +230,7 @@ def main(argv=None):
         if not unknown:
             continue
         key, sc, v = min(unknown, key=lambda t: len(json.dumps(t[1])))
-        if not args.no_minimize:
+        if not args.no_minimize and new_violations < plan.get('max_minimize', 4):
             sc, v, mstats = minimize.minimize(mod, sc, v, kf, workers=workers, budget_s=plan.get('minimize_s', 120))
         else:
             mstats = {}
